@@ -639,7 +639,7 @@ Proof.
   unfold judge_step.
   assert (Ep : is_path_op o = false) by (destruct o; try discriminate; reflexivity).
   assert (Erl : merges o = true) by (destruct o; try discriminate; reflexivity).
-  assert (Edf : is_deferred o = false) by (destruct o; try discriminate; reflexivity).
+  assert (Edf : defers o = false) by (destruct o; try discriminate; reflexivity).
   rewrite Edf, Hnp, Ep, Erl. cbn [andb].
   destruct Hfacts as [Ee | [Eo [El Eenv]]]; [rewrite Ee; left; eauto|].
   rewrite Eo. cbn [env_error out_match andb].
@@ -680,7 +680,7 @@ Proof.
   destruct (op_ok_kinds S o Hop) as [Hg | Hr].
   - destruct (path_step_ok S fs i c r o HS Hrel Hop Hwf Hg) as [r' [Ej Hrel']].
     assert (Ep : is_path_op o = true) by (destruct o; try discriminate; reflexivity).
-    assert (Edf : is_deferred o = false) by (destruct o; try discriminate; reflexivity).
+    assert (Edf : defers o = false) by (destruct o; try discriminate; reflexivity).
     unfold judge_step. rewrite Edf, (rl_np _ _ _ _ _ Hrel), Ep. cbn [andb]. rewrite Ej.
     destruct (abnormal (snd (step fs c o))); [reflexivity | apply IH; assumption].
   - destruct (reload_step_ok S fs i c r o HS Hrel Hop Hr) as [[r' Ej] | [r' [Ej Hrel']]]; cbv zeta in Ej;
